@@ -29,6 +29,37 @@ type vfRTracer struct {
 	mu  sync.Mutex
 	evs []string // "G p t" | "P p t" | "J t" | "L t"
 	idx func(peer.ID) int
+	drops []string // GRAFT / PRUNE of RPCs that were dropped (queue full), as Gallina ctl terms
+}
+
+func vfCtlTerms(i int, c *pb.ControlMessage) (ctl []string) {
+	if c == nil {
+		return
+	}
+	for _, g := range c.Graft {
+		ctl = append(ctl, fmt.Sprintf("CGraft %d %s", i, g.GetTopicID()[1:]))
+	}
+	for _, pr := range c.Prune {
+		bo := "None"
+		if pr.Backoff != nil {
+			bo = fmt.Sprintf("(Some (%d)%%Z)", *pr.Backoff)
+		}
+		ctl = append(ctl, fmt.Sprintf("CPrune %d %s %s", i, pr.GetTopicID()[1:], bo))
+	}
+	return
+}
+
+func (tr *vfRTracer) DropRPC(r *RPC, p peer.ID) {
+	tr.mu.Lock()
+	tr.drops = append(tr.drops, vfCtlTerms(tr.idx(p), r.Control)...)
+	tr.mu.Unlock()
+}
+func (tr *vfRTracer) takeDrops() []string {
+	tr.mu.Lock()
+	defer tr.mu.Unlock()
+	d := tr.drops
+	tr.drops = nil
+	return d
 }
 
 func (tr *vfRTracer) Graft(p peer.ID, t string) { tr.mu.Lock(); tr.evs = append(tr.evs, fmt.Sprintf("G %d %s", tr.idx(p), t)); tr.mu.Unlock() }
@@ -62,13 +93,22 @@ type vfRNode struct {
 	ctx    context.Context
 }
 
-const (
+// score thresholds of the harness nodes; the gossip histories move them (vfSetThresholds), everything else uses these values
+var (
 	vfOGThreshold = 2
 	vfPublishThr  = -3
 	vfGossipThr   = -2
 	vfGraylistThr = -5
 	vfAcceptPX    = 2
 )
+
+func vfSetThresholds(rng *rand.Rand) (reset func()) {
+	o := [5]int{vfOGThreshold, vfPublishThr, vfGossipThr, vfGraylistThr, vfAcceptPX}
+	vfGossipThr = -rng.Intn(4)
+	vfPublishThr = vfGossipThr - rng.Intn(3)
+	vfGraylistThr = vfPublishThr - rng.Intn(3)
+	return func() { vfOGThreshold, vfPublishThr, vfGossipThr, vfGraylistThr, vfAcceptPX = o[0], o[1], o[2], o[3], o[4] }
+}
 
 func vfNewRouterNode(t *testing.T, ctx context.Context, P vfRParams, npeers int, extra ...Option) *vfRNode {
 	h := vfHosts(t, 1)[0]
@@ -92,7 +132,7 @@ func vfNewRouterNode(t *testing.T, ctx context.Context, P vfRParams, npeers int,
 		AppSpecificScore: func(p peer.ID) float64 { return float64(n.scores[idx[p]]) }, AppSpecificWeight: 1,
 		DecayInterval: 100000 * time.Hour, DecayToZero: 0.01, RetainScore: time.Minute, Topics: map[string]*TopicScoreParams{},
 	}
-	th := &PeerScoreThresholds{GossipThreshold: vfGossipThr, PublishThreshold: vfPublishThr, GraylistThreshold: vfGraylistThr, AcceptPXThreshold: vfAcceptPX, OpportunisticGraftThreshold: vfOGThreshold}
+	th := &PeerScoreThresholds{GossipThreshold: float64(vfGossipThr), PublishThreshold: float64(vfPublishThr), GraylistThreshold: float64(vfGraylistThr), AcceptPXThreshold: float64(vfAcceptPX), OpportunisticGraftThreshold: float64(vfOGThreshold)}
 	opts := append([]Option{WithGossipSubParams(gp), WithPeerScore(sp, th), WithRawTracer(n.tr), WithMessageSignaturePolicy(StrictNoSign),
 		WithMessageIdFn(func(m *pb.Message) string { return string(m.Data) }), WithFloodPublish(false)}, extra...)
 	ps, err := NewGossipSub(ctx, h, opts...)
@@ -145,18 +185,7 @@ func (n *vfRNode) drain() (ctl []string, rpcs map[int][]*RPC) {
 					break
 				}
 				rpcs[i] = append(rpcs[i], out)
-				if c := out.Control; c != nil {
-					for _, g := range c.Graft {
-						ctl = append(ctl, fmt.Sprintf("CGraft %d %s", i, g.GetTopicID()[1:]))
-					}
-					for _, pr := range c.Prune {
-						bo := "None"
-						if pr.Backoff != nil {
-							bo = fmt.Sprintf("(Some (%d)%%Z)", *pr.Backoff)
-						}
-						ctl = append(ctl, fmt.Sprintf("CPrune %d %s %s", i, pr.GetTopicID()[1:], bo))
-					}
-				}
+				ctl = append(ctl, vfCtlTerms(i, out.Control)...)
 			}
 		}
 	})
@@ -260,12 +289,55 @@ func vfRouterHistory(t *testing.T, rng *rand.Rand, nops int, style int) (lit str
 			P.OGTicks = 1
 			np = P.Dhi + 4 + rng.Intn(4)
 		}
+		if style == 10 {
+			// a direct peer subscribed to the topic when the node joins it: it is never grafted
+			for P.D == 0 {
+				P = vfRandParams(rng)
+			}
+			P.D, P.Dlo, P.Dhi, P.Dscore, P.Dout = 4, 3, 6, 1, 0
+			np = 4
+		}
+		if style == 9 {
+			// a mesh over Dhi whose only outbound member has the lowest score: the cut must keep it (Dout = 1)
+			for P.D == 0 {
+				P = vfRandParams(rng)
+			}
+			P.D, P.Dlo, P.Dhi, P.Dscore, P.Dout = 4, 3, 5, 1, 1
+			np = 6
+		}
+		if style == 8 {
+			// one heartbeat cuts the over-subscribed mesh of topic 0 and fills the empty mesh of topic 1 from the same peers
+			for P.D == 0 {
+				P = vfRandParams(rng)
+			}
+			P.D, P.Dlo, P.Dhi, P.Dscore, P.Dout = 3, 3, 6, 1, 0
+			np = 6
+		}
+		if style == 7 {
+			for P.D == 0 {
+				P = vfRandParams(rng)
+			}
+			P.D, P.Dlo, P.Dhi, P.Dscore, P.Dout = 3, 3, 4, 1, 0
+			np = 3
+		}
+		if style == 4 {
+			// a PRUNE naming a long backoff, then a GRAFT from the same peer inside it (refused, and the backoff must only ever be
+			// extended), then enough time and heartbeats for a shortened entry to expire and be swept, with the mesh below Dlo
+			for P.D == 0 {
+				P = vfRandParams(rng)
+			}
+			P.D, P.Dlo, P.Dhi, P.Dscore, P.Dout = 3, 3, 4, 1, 0
+			P.PruneBackoff, P.GraftFlood = 5*time.Second, 2*time.Second
+			np = 3
+		}
 		n := vfNewRouterNode(t, ctx, P, np)
 		ntopics := 1 + rng.Intn(2)
 		// scripted prefix: forced values of r (the operation selector) with forced arguments
 		type forced struct {
 			r, p, tp int
 			d    time.Duration
+			bo   int // backoff seconds named in a forced PRUNE (0 = random)
+			out  int // direction of a forced new peer: 0 random, 1 inbound, 2 outbound
 		}
 		var script []forced
 		if style == 1 {
@@ -298,16 +370,109 @@ func vfRouterHistory(t *testing.T, rng *rand.Rand, nops int, style int) (lit str
 			}
 			script = append(script, forced{r: 30, tp: 0}, forced{r: 70}, forced{r: 40, tp: 0}, forced{r: 62, tp: 0}, forced{r: 30, tp: 0}, forced{r: 70})
 		}
+		if style == 10 {
+			for p := 0; p < 4; p++ {
+				script = append(script, forced{r: 0, p: p})
+			}
+			script = append(script, forced{r: 86, p: rng.Intn(4)}, forced{r: 30, tp: 0}, forced{r: 70}, forced{r: 70})
+		}
+		if style == 9 {
+			script = append(script, forced{r: 30, tp: 0})
+			for p := 0; p < 6; p++ {
+				script = append(script, forced{r: 0, p: p, out: 1 + p/5})
+			}
+			for p := 0; p < 6; p++ {
+				script = append(script, forced{r: 45, p: p, tp: 0})
+			}
+			script = append(script, forced{r: 70}, forced{r: 70})
+		}
+		if style == 8 {
+			script = append(script, forced{r: 30, tp: 1})
+			for p := 0; p < 6; p++ {
+				script = append(script, forced{r: 0, p: p})
+			}
+			script = append(script, forced{r: 30, tp: 0})
+			for p := 0; p < 6; p++ {
+				script = append(script, forced{r: 45, p: p, tp: 0})
+			}
+			script = append(script, forced{r: 70})
+		}
+		if style == 7 {
+			// a PRUNE with peer-exchange records from a peer below the accept-PX threshold: the records are ignored, the backoff is not
+			for p := 0; p < 3; p++ {
+				script = append(script, forced{r: 0, p: p})
+			}
+			script = append(script, forced{r: 30, tp: 0}, forced{r: 55, p: 0, tp: 0, bo: 20}, forced{r: 70}, forced{r: 70})
+		}
+		if style == 6 {
+			// the GRAFT sent at Join is dropped (queue full), the peer then prunes us, its queue opens again: the pending GRAFT
+			// must not go out (the peer is no longer in the mesh and under backoff)
+			for p := 0; p < 3; p++ {
+				script = append(script, forced{r: 0, p: p})
+			}
+			script = append(script, forced{r: 65, p: 0}, forced{r: 30, tp: 0}, forced{r: 55, p: 0, tp: 0, bo: 30}, forced{r: 65, p: 0}, forced{r: 70}, forced{r: 70})
+		}
+		if style == 5 {
+			// a fanout is picked, two of four peers leave, the topic is joined before the next heartbeat
+			for p := 0; p < 4; p++ {
+				script = append(script, forced{r: 0, p: p})
+			}
+			script = append(script, forced{r: 62, tp: 0}, forced{r: 20, p: 0}, forced{r: 20, p: 1}, forced{r: 30, tp: 0}, forced{r: 70})
+		}
+		if style == 4 {
+			script = append(script, forced{r: 0, p: 0}, forced{r: 0, p: 1}, forced{r: 0, p: 2}, forced{r: 30, tp: 0},
+				forced{r: 55, p: 0, tp: 0, bo: 40}, forced{r: 90, d: time.Second}, forced{r: 45, p: 0, tp: 0}, forced{r: 90, d: 10 * time.Second})
+			for k := 0; k < 17; k++ {
+				script = append(script, forced{r: 70})
+			}
+		}
 		connected := map[int]bool{}
 		var steps []string
 		var recSteps []map[string]any
 		hbs, oversub := 0, false
+		// GRAFT / PRUNE whose RPC was dropped (queue full) are kept by the router and retried with the next RPC to that peer; what
+		// was pending before an operation and goes out (or is dropped again) during it is a retry, everything else is fresh
+		pendingBefore := map[string]int{}
+		clogged := map[int]bool{}
 		emit := func(op string, extra map[string]any) {
-			ctl, _ := n.drain()
+			sent, _ := n.drain()
+			n.tr.takeDrops()
+			pendingAfter := map[string]int{}
+			vfEval(n.ps, func() {
+				for p, c := range n.gs.control {
+					for _, x := range vfCtlTerms(n.tr.idx(p), c) {
+						pendingAfter[x]++
+					}
+				}
+			})
+			var ctl, retried []string
+			// an open queue takes everything: what had been pending and went out is a retry, the rest is fresh
+			for _, c := range sent {
+				if pendingBefore[c] > 0 {
+					pendingBefore[c]--
+					retried = append(retried, c)
+				} else {
+					ctl = append(ctl, c)
+				}
+			}
+			// a queue that refuses everything: what this step produced for that peer is what its pending control grew by
+			for c, k := range pendingAfter {
+				var kind string
+				var pi int
+				fmt.Sscanf(c, "%s %d", &kind, &pi)
+				if clogged[pi] {
+					for j := pendingBefore[c]; j < k; j++ {
+						ctl = append(ctl, c)
+					}
+				}
+			}
+			sort.Strings(ctl)
+			sort.Strings(retried)
+			pendingBefore = pendingAfter
 			snap := n.snapshot()
-			steps = append(steps, fmt.Sprintf("{| st_scores := %s; st_op := %s; st_ctl := [%s]; st_snap := %s; st_pen := %d |}",
-				extra["scores"], op, strings.Join(ctl, "; "), snap, extra["pen"]))
-			recSteps = append(recSteps, map[string]any{"op": op, "scores": extra["scores"], "ctl": ctl, "penalty": extra["pen"]})
+			steps = append(steps, fmt.Sprintf("{| st_scores := %s; st_op := %s; st_ctl := [%s]; st_retried := [%s]; st_snap := %s; st_pen := %d |}",
+				extra["scores"], op, strings.Join(ctl, "; "), strings.Join(retried, "; "), snap, extra["pen"]))
+			recSteps = append(recSteps, map[string]any{"op": op, "scores": extra["scores"], "ctl": ctl, "retried_ctl": retried, "penalty": extra["pen"]})
 		}
 		sub := func(p, tp int, s bool) {
 			ts := vfTopic(tp)
@@ -319,6 +484,12 @@ func vfRouterHistory(t *testing.T, rng *rand.Rand, nops int, style int) (lit str
 				for k := 0; k < 1+rng.Intn(3); k++ {
 					n.scores[rng.Intn(np)] = []int{-2, -1, -1, 0, 0, 0, 1, 2, 2, 3, 4}[rng.Intn(11)]
 				}
+			}
+			if style == 9 && i == len(script)-2 {
+				for p := 0; p < 5; p++ {
+					n.scores[p] = 1 + rng.Intn(4)
+				}
+				n.scores[5] = 0
 			}
 			if style == 1 && i == len(script)-2 {
 				// a few clearly better peers, the rest around / below the opportunistic threshold
@@ -353,6 +524,9 @@ func vfRouterHistory(t *testing.T, rng *rand.Rand, nops int, style int) (lit str
 				}
 				proto := vfProtos[[]int{0, 1, 2, 2, 3, 3, 3}[rng.Intn(7)]]
 				outb := rng.Intn(3) == 0
+				if fc != nil && fc.out != 0 {
+					outb = fc.out == 2
+				}
 				n.addPeer(p, proto, outb)
 				connected[p] = true
 				emit(fmt.Sprintf("OAddPeer %d {| pi_mesh := %v; pi_px := %v; pi_out := %v |}", p, proto != FloodSubID, proto == GossipSubID_v11 || proto == GossipSubID_v12, outb), map[string]any{"scores": sc, "pen": 0})
@@ -369,6 +543,7 @@ func vfRouterHistory(t *testing.T, rng *rand.Rand, nops int, style int) (lit str
 				}
 				n.removePeer(p)
 				delete(connected, p)
+				delete(clogged, p)
 				emit(fmt.Sprintf("ODisconnect %d", p), map[string]any{"scores": sc, "pen": 0})
 			case r < 30:
 				p, tp := rng.Intn(np), rng.Intn(ntopics)
@@ -432,12 +607,38 @@ func vfRouterHistory(t *testing.T, rng *rand.Rand, nops int, style int) (lit str
 				bo := "None"
 				if fc != nil || rng.Intn(2) == 0 {
 					v := uint64(1 + rng.Intn(40))
+					if fc != nil && fc.bo > 0 {
+						v = uint64(fc.bo)
+					}
 					pr.Backoff = &v
 					bo = fmt.Sprintf("(Some (%d)%%Z)", v)
+				}
+				if fc != nil || rng.Intn(2) == 0 {
+					// peer-exchange records ride along (whether they are followed depends on the sender's score; the backoff does not)
+					for k := 1 + rng.Intn(2); k > 0; k-- {
+						pr.Peers = append(pr.Peers, &pb.PeerInfo{PeerID: []byte(vfPeerIDs(40)[20+rng.Intn(20)])})
+					}
 				}
 				n.recv(p, &pb.RPC{Control: &pb.ControlMessage{Prune: []*pb.ControlPrune{pr}}})
 				n.tr.take()
 				emit(fmt.Sprintf("ORecvPrune %d [(%d, %s)]", p, tp, bo), map[string]any{"scores": sc, "pen": 0})
+			case r >= 64 && r < 67:
+				// a peer's outbound queue stops taking RPCs (everything to it is dropped) / takes them again
+				p := pick(np)
+				if !connected[p] {
+					continue
+				}
+				clogged[p] = !clogged[p]
+				vfEval(n.ps, func() {
+					if q, ok := n.ps.peers[n.pids[p]]; ok {
+						if clogged[p] {
+							q.maxSize = 0
+						} else {
+							q.maxSize = 4096
+						}
+					}
+				})
+				continue
 			case r < 64:
 				// a publication to a topic that is not joined: the fanout set is picked (when empty) and kept alive
 				tp := pickT(ntopics)
@@ -519,6 +720,36 @@ func vfRouterHistory(t *testing.T, rng *rand.Rand, nops int, style int) (lit str
 				})
 				sort.Strings(fobs)
 				emit(fmt.Sprintf("OHeartbeat [%s] [%s]", strings.Join(obs, "; "), strings.Join(fobs, "; ")), map[string]any{"scores": sc, "pen": 0})
+			case r < 88:
+				// a peer that is in no mesh or fanout becomes a direct peer, or a direct peer stops being one
+				p := pick(np)
+				on, inMesh := false, false
+				vfEval(n.ps, func() {
+					_, is := n.gs.direct[n.pids[p]]
+					on = !is
+					for _, m := range n.gs.mesh {
+						if _, ok := m[n.pids[p]]; ok {
+							inMesh = true
+						}
+					}
+					for _, m := range n.gs.fanout {
+						if _, ok := m[n.pids[p]]; ok {
+							inMesh = true // direct peers are fixed at construction in reality: never one that already is in a mesh or fanout
+						}
+					}
+					if on && !inMesh {
+						if n.gs.direct == nil {
+							n.gs.direct = map[peer.ID]struct{}{}
+						}
+						n.gs.direct[n.pids[p]] = struct{}{}
+					} else if !on {
+						delete(n.gs.direct, n.pids[p])
+					}
+				})
+				if on && inMesh {
+					continue
+				}
+				emit(fmt.Sprintf("ODirect %d %v", p, on), map[string]any{"scores": sc, "pen": 0})
 			default:
 				// time: land exactly at / one nanosecond around backoff deadlines now and then
 				d := time.Duration(1+rng.Intn(8)) * time.Second
@@ -554,11 +785,11 @@ func TestVF_Router(t *testing.T) {
 	rng := vfRng(7)
 	ncases := vfN(160, 2000)
 	for c := 0; c < ncases; c++ {
-		style := []int{0, 0, 0, 1, 1, 2, 3, 0}[c%8]
+		style := []int{0, 0, 9, 1, 10, 2, 3, 4, 5, 6, 7, 8}[c%12]
 		lit, rec, nt := vfRouterHistory(t, rng, 25+rng.Intn(50), style)
 		cs.add(lit, rec, nt)
 		cs.kind(fmt.Sprintf("style%d", style))
 	}
-	cs.flush("random router histories on a real gossipsub node with a parked heartbeat: fake peers of every protocol version with inbound/outbound direction, remote subscriptions, GRAFT / PRUNE (with and without backoff, unknown topics), Join / Leave, publications to topics that are not joined (fanout selection; also between a Leave and a Join inside the unsubscribe backoff), integer scores moving across 0 and the opportunistic-graft threshold, heartbeats, virtual time landing exactly at and one nanosecond around the backoff deadlines, random valid degree parameters incl. the all-zero bootstrapper setting; after EVERY operation the drained GRAFT/PRUNE, the behaviour-penalty delta and a snapshot of mesh / fanout / backoff are compared with the model. " +
+	cs.flush("random router histories on a real gossipsub node with a parked heartbeat: fake peers of every protocol version with inbound/outbound direction, remote subscriptions, GRAFT / PRUNE (with and without backoff, unknown topics), Join / Leave, peers whose outbound queue refuses every RPC for a while (dropped GRAFT / PRUNE are retried later), publications to topics that are not joined (fanout selection; also between a Leave and a Join inside the unsubscribe backoff), integer scores moving across 0 and the opportunistic-graft threshold, heartbeats, virtual time landing exactly at and one nanosecond around the backoff deadlines, random valid degree parameters incl. the all-zero bootstrapper setting; after EVERY operation the drained GRAFT/PRUNE, the behaviour-penalty delta and a snapshot of mesh / fanout / backoff are compared with the model. " +
 		"non-trivial = at least one heartbeat that pruned somebody; distinct = hash of the whole history")
 }
